@@ -160,7 +160,36 @@ def suite_history(ctx, case):
     finally:
         if path: os.unlink(path)
 
-SUITES = {'array': suite_array, 'file': suite_file, 'history': suite_history}
+def suite_bigsys(ctx, case):
+    """a two-component System on a LONG grid (> 1000 points) whose tabulated omegas agree near both ends of the grid and differ in the
+    interior: every table reaches PRISM.omega as it is (times the site density), and a k column that is off at ONE interior point is refused"""
+    L, dr = case['L'], case['dr']
+    s = pyPRISM.System(['A', 'B'], kT=1.0); s.domain = pyPRISM.Domain(length=L, dr=dr)
+    s.density['A'] = 0.3; s.density['B'] = 0.45; s.diameter[['A', 'B']] = 1.0
+    s.potential[['A', 'B'], ['A', 'B']] = pyPRISM.potential.HardSphere(); s.closure[['A', 'B'], ['A', 'B']] = pyPRISM.closure.PercusYevick()
+    k = s.domain.k
+    base = 1.0 + 3.0 * np.exp(-(k * case['w']) ** 2)
+    bump = np.zeros(L); lo = L // 3; bump[lo:lo + L // 4] = case['amp']
+    tabs = {('A', 'A'): base.copy(), ('B', 'B'): base + bump, ('A', 'B'): 0.5 * base * (1 - bump)}
+    kcol = {('A', 'A'): None, ('B', 'B'): None, ('A', 'B'): None}
+    if case.get('badk'):
+        # both like-pair tables carry a k column; the second one is off at ONE interior point (and the tables themselves are equal)
+        kb = k.copy(); kb[L // 2] *= 1.0 + 1e-3; kcol[('A', 'A')] = k.copy(); kcol[('B', 'B')] = kb; tabs[('B', 'B')] = base.copy()
+    for (a, b), v in tabs.items():
+        s.omega[a, b] = pyPRISM.omega.FromArray(v.copy(), None if kcol[(a, b)] is None else kcol[(a, b)])
+    try:
+        p = s.createPRISM(); got = 'ok'
+    except Exception as e:
+        p = None; got = 'rejected'
+    ctx.pred('bigsys', case, got == ('rejected' if case.get('badk') else 'ok'), 'two long FromArray tables in one System: createPRISM %s (k column %s)' % (got, 'off at one interior point' if case.get('badk') else 'matching'),
+             key='C12:fromarray')
+    if p is not None and not case.get('badk'):
+        site = {('A', 'A'): 0.3, ('B', 'B'): 0.45, ('A', 'B'): 0.75}
+        idx = {'A': 0, 'B': 1}
+        ok = all(np.array_equal(p.omega.data[:, idx[a], idx[b]], tabs[(a, b)] * site[(a, b)]) for (a, b) in tabs)
+        ctx.pred('bigsys', case, ok, 'PRISM.omega is not each table times its site density (tables that agree near both ends of a long grid are not the same table)', key='C12:fromarray')
+
+SUITES = {'array': suite_array, 'file': suite_file, 'history': suite_history, 'bigsys': suite_bigsys}
 
 def gen_domain(rng, maxL):
     L = rng.choice([1, 2, 3, 5, 8, 16, rng.randint(1, maxL)])
@@ -187,6 +216,9 @@ def relate(rng, kd, rel):
 
 def generate(ctx):
     rng = ctx.rng; maxL = ctx.n(40, 300)
+    for q in range(ctx.n(4, 20)):
+        case = {'L': rng.choice([1024, 1200, 2048, 1500]), 'dr': rng.choice([0.05, 0.1]), 'w': rng.uniform(0.5, 2.0), 'amp': rng.choice([0.5, -0.3, 2.0]), 'badk': q % 2 == 1}
+        ctx.case('bigsys', case, True, tags=['bigsys', 'badk' if case['badk'] else 'goodk']); suite_bigsys(ctx, case)
     for _ in range(ctx.n(120, 1500)):
         L, dr, kd = gen_domain(rng, 24)
         rows = [[k, round(rng.choice([rng.uniform(0, 30), rng.uniform(-0.5, 0.5), rng.uniform(-30, 30), 0.0, 10 ** rng.uniform(-12, -6)]), 12)] for k in kd]
